@@ -593,8 +593,20 @@ def run(update_baseline=False, jobs=14):
                          "g_call_opaque_statements": sum(r["opaque"] for r in results)}}
 
 
-def engine(pid, tier, seed, known):
-    return run()
+def engine(pid, tier, seed, known, kernel_patterns=None):
+    """kernel_patterns: keep only the call sites of kernels whose name matches one of the regexes"""
+    r = run()
+    if kernel_patterns:
+        pats = [re.compile(p) for p in kernel_patterns]
+
+        def keep(unit):
+            parts = unit.split("|")
+            k = parts[2] if len(parts) > 2 else unit
+            return any(p.search(k) for p in pats)
+        r["obligations"] = [o for o in r["obligations"] if keep(o["unit"])]
+        r["coverage"]["g_call_undecided"] = [u for u in r["coverage"]["g_call_undecided"] if keep(u["key"])]
+        r["coverage"]["g_call_undecided_count"] = len(r["coverage"]["g_call_undecided"])
+    return r
 
 
 if __name__ == "__main__":
